@@ -1436,17 +1436,19 @@ _adapter_hook(LB* self,
         return NULL;
 
     if (factory != Py_None) {
+        PyObject* unwrapped = NULL;
         if (PyObject_TypeCheck(object, &PySuper_Type)) {
-            PyObject* self = PyObject_GetAttr(object, str__self__);
-            if (self == NULL) {
+            unwrapped = PyObject_GetAttr(object, str__self__);
+            if (unwrapped == NULL) {
                 Py_DECREF(factory);
                 return NULL;
             }
-            // Borrow the reference to self
-            Py_DECREF(self);
-            object = self;
+            /* Keep our own reference until the factory returned: a
+               subclass of super may compute ``__self__``. */
+            object = unwrapped;
         }
         result = PyObject_CallFunctionObjArgs(factory, object, NULL);
+        Py_XDECREF(unwrapped);
         Py_DECREF(factory);
         if (result == NULL || result != Py_None)
             return result;
